@@ -31,7 +31,9 @@ def run(rep, tier, seed, replay):
         import json
         h = json.loads(r[0])
         rep.violation({"check": "record-crash", "proto": h.get("p"), "err": h.get("err")[:80]}, {"run": r[:50]})
+    ids = rt.compact_ids_inductive()
     rep.cov = {
+        "compact_field_id_channel_inductive": ids,
         "states": pst["distinct"], "transitions": pst["generated"],
         "traces_validated_against_impl": runs + wsum["walks"],
         "samples": [{"walk": {"id": wsample["id"], "steps": wsample["steps"][:6]}}],
